@@ -49,7 +49,58 @@ func Damage(t *sim.Tape, frame []byte, fm []ref.Field, other []byte, allowHuge b
 		}
 		return c[t.Int(len(c))], true
 	}
-	switch t.Pick(4, 4, 6, 4, 3, 2, 3, 2) {
+	switch t.Pick(4, 4, 6, 4, 3, 2, 3, 2, 4) {
+	case 8: // a property repeated inside its section (as is, or with a zero-length / zero value), lengths made truthful
+		var props []ref.Field
+		var plen *ref.Field
+		for i := range fm {
+			if fm[i].Kind == "prop" {
+				props = append(props, fm[i])
+			}
+		}
+		if len(props) == 0 {
+			return append([]byte{}, frame...), "none"
+		}
+		p := props[t.Int(len(props))]
+		// the property-length field that encloses p: the last one starting before it
+		for i := range fm {
+			if fm[i].Kind == "varint" && (fm[i].Name == "PropertyLength" || fm[i].Name == "WillPropertyLength") && fm[i].Start < p.Start {
+				plen = &fm[i]
+			}
+		}
+		if plen == nil {
+			return append([]byte{}, frame...), "none"
+		}
+		// full extent of the property: identifier + value (for user properties: + value string)
+		end := p.End
+		for _, f := range fm {
+			if f.Start == p.End && f.Kind == "str" && p.ID == 0x26 {
+				end = f.End
+			}
+		}
+		dup := append([]byte{}, frame[p.Start:end]...)
+		how := "as-is"
+		if d := ref.Lookup(p.ID); d != nil && (d.Kind == ref.KUTF8 || d.Kind == ref.KBinary) && t.Bool(2, 3) {
+			dup = []byte{p.ID, 0, 0} // second occurrence with an empty value
+			how = "empty-value"
+		}
+		old, _, _ := ref.ParseVarint(frame[plen.Start:plen.End])
+		var out []byte
+		out = append(out, frame[:plen.Start]...)
+		out = ref.AppendVarint(out, old+uint32(len(dup)))
+		// insert right after the original or at the end of the section
+		secEnd := plen.End + int(old)
+		at := end
+		if t.Bool(1, 2) {
+			at = secEnd
+		}
+		if at > len(frame) || secEnd > len(frame) {
+			return append([]byte{}, frame...), "none"
+		}
+		out = append(out, frame[plen.End:at]...)
+		out = append(out, dup...)
+		out = append(out, frame[at:]...)
+		return FixRL(out), "duplicate-property(" + how + ")"
 	case 0: // stream truncated (peer died) at a field-biased offset
 		k := t.Int(L)
 		if len(fm) > 0 && t.Bool(2, 3) {
